@@ -26,6 +26,13 @@ scanner.Fetcher.Run / scanner.Scanner.Scan.
   code -> spec: traces of randomly configured runs (and of the replayed ones) are validated by FetcherTrace.tla.
   oracle-free monitors on every run: exactly once with the served bytes, nothing outside, termination, continuous-mode
   initial segment when quiet, callbacks once per selected entry and by entry type.
+The migration controller (trillian/migrillian/core/controller.go, an anchor) is the Fetcher's user whose rounds must carry on
+"without gaps or repeats": spec/migrate/Migrillian.tla (shared with C20) with the signer-lag dimension - the pre-ordered
+destination moves its root in a separate Integrate step, arbitrarily later than the submissions, while the source grows
+between the rounds; invariants PosCovered (no gaps) + NoRepeat (ghost subm: no index submitted twice within one run) checked
+over every schedule of the signer (MigrillianLag.cfg), refutation instance MigrillianRewind.cfg, simulated behaviours with a
+sleeping signer (MigrillianSimLag.cfg) and lag scenarios replayed / traced on the real core.Controller over the real
+Fetcher (harness/vt/c20), trace validation by MigrillianTrace.tla (defect step RewindRange, invariant NoRepeat).
 """
 import json
 import os
@@ -39,6 +46,11 @@ ASSUME = [
     "while the run's context is alive) are counted (an error budget per run), never timed; BatchSize >= 1, ParallelFetch >= 1, StartIndex >= 0",
     "tree heads follow the published size (monotone); entries are tokens in the specification, the harness attaches real "
     "X.509 / precertificate leaves built with harness/ref and compares bytes",
+    "migration controller (an anchored user of the Fetcher): 'in continuous mode it carries on ... without gaps or repeats' is demanded "
+    "of one run of Controller.Run, whatever the lag of the destination's signer (the root moves in a separate Integrate step, arbitrarily "
+    "later than the submission; lag 0..5 root requests in the runs, every schedule in the model); named clause RunStartsFromRoot: a new run "
+    "(after a failed pass, lost mastership, restart) knows only the root and may submit again what is not integrated yet; a batch answered "
+    "ResourceExhausted was not submitted",
     "log content: an entry is its kind and the set of defects its (pre-)certificate carries, from a catalogue of 12 (3 of the DER "
     "layer: padded serial / version INTEGER, empty extension OID; 5 of the field layer: 3-octet iPAddress, empty AIA / SIA, empty EKU "
     "value, '@' in a PrintableString of the subject; 4 fatal: cut, trailing octet, month 13, SET for SEQUENCE), at most two per tolerable "
@@ -63,6 +75,11 @@ def run(ctx, replay=None):
         with open(replay) as f:
             rp = json.load(f)
         data = rp.get("replay") or {}
+        if "cfg" in data and not data.get("config"):
+            # a scenario of the migration controller (step 5): re-executed by the probe of harness/vt/c20
+            probe = {k: data[k] for k in ("cfg", "faults", "restarts") if k in data}
+            ctx.go_test("vt/c20", run="TestProbe$", env={"VERIF_PROBE": json.dumps(probe)}, toolchain="go1.26", race=True, name="c20probe")
+            return
         case = {"Config": data.get("config"), "Run": data.get("run"), "World": data.get("world"), "Entries": data.get("entries")}
         if not case["Config"]:
             raise Infra("replay file carries no configuration")
@@ -108,8 +125,17 @@ def run(ctx, replay=None):
 
     # 5. the migration controller (trillian/migrillian/core/controller.go, an anchor of C16) as a user of the Fetcher:
     #    continuous passes, submitter faults and restarts must not lose or repeat ranges.  Decided by Migrillian.tla
-    #    (PosCovered / NoGap / Complete / Mirror) on the real core.Controller; a reduced run of C20's conformance part.
+    #    (PosCovered / NoGap / NoRepeat / Complete / Mirror) on the real core.Controller; a reduced run of C20's conformance part.
+    #    "Without gaps or repeats" across rounds has a dimension of its own on the Trillian side: SIGNER LAG - a pre-ordered
+    #    log queues what AddSequencedLeaves brings and moves its signed root in a separate Integrate step, arbitrarily later,
+    #    while the source log grows between the rounds.  MigrillianLag.cfg checks NoRepeat + PosCovered (every index
+    #    submitted exactly once across the rounds of a run) over every schedule of the signer; MigrillianRewind.cfg (a
+    #    migrator that takes the root for its position) must violate NoRepeat; the conformance step carries the dimension to
+    #    the real Controller (simulated behaviours with a sleeping signer, lag scenarios among the random runs, guard
+    #    against vacuity) and trace validation names the defect (step RewindRange, invariant NoRepeat).
     from props import c20 as _c20
+    if os.environ.get("VERIF_C16_SKIP_MC") != "1":
+        _c20.lag_model(ctx)
     _c20.conformance(ctx, f=0.35)
 
 
